@@ -12,10 +12,10 @@ V = Path(__file__).resolve().parent.parent
 pid = sys.argv[1]; tier = sys.argv[2] if len(sys.argv) > 2 else "quick"
 prop = next(json.loads(l) for l in (V / "properties.jsonl").read_text().splitlines() if json.loads(l)["id"] == pid)
 files = [f for f in prop["anchors"]["files"] if f.endswith(".c")]
-B = V / "build" / "repo_cov"
+B = V / "build" / ("repo_cov" + pid)
 for g in B.rglob("*.gcda"):
     g.unlink()
-env = dict(os.environ, VERIF_COV="1")
+env = dict(os.environ, VERIF_COV="1", VERIF_COV_TAG=pid)
 r = subprocess.run([str(V / "check"), pid, tier], env=env, capture_output=True, text=True, cwd=V)
 print((r.stdout.strip().splitlines() or ["(no output)"])[-1])
 out = []
